@@ -172,6 +172,12 @@ func (t c11Table) gallina() string {
 
 var c11Timeouts int
 
+var (
+	c11Count   int
+	c11Live    = map[int]props.Resolver{}
+	c11LiveTbl = map[int]map[string]string{}
+)
+
 func c11Resolve(tbl c11Table, in rtoks, di int, nontrivial bool) Case {
 	d := c11Delims[di]
 	m := map[string]string{}
@@ -184,15 +190,33 @@ func c11Resolve(tbl c11Table, in rtoks, di int, nontrivial bool) Case {
 	}
 	input := conc(in, d)
 	type outcome struct {
-		res    string
-		panicv string
+		res, res2       string
+		panicv, panicv2 string
 	}
 	ch := make(chan outcome, 1)
+	c11Count++
 	go func() {
 		var o outcome
 		o.panicv = guard(func() {
-			o.res = props.Builder().Prefix(d[0]).Suffix(d[1]).ValueSeparator(d[2]).LookupFunc(props.MapLookup(m)).MustBuild().Resolve(input)
+			b := props.Builder()
+			if di != 0 || c11Count%2 == 0 { // the first triple is the documented default: every second resolver relies on it
+				b = b.Prefix(d[0]).Suffix(d[1]).ValueSeparator(d[2])
+			}
+			o.res = b.LookupFunc(props.MapLookup(m)).MustBuild().Resolve(input)
 		})
+		// one long-lived resolver per triple, whose lookup function reads a table that changes from
+		// call to call (earlier calls may have ended in a cycle panic): same answer as a fresh one
+		if c11Live[di] == nil {
+			dd := di
+			c11Live[di] = props.Builder().Prefix(d[0]).Suffix(d[1]).ValueSeparator(d[2]).LookupFunc(func(k string) *string {
+				if v, ok := c11LiveTbl[dd][k]; ok {
+					return &v
+				}
+				return nil
+			}).MustBuild()
+		}
+		c11LiveTbl[di] = m
+		o.panicv2 = guard(func() { o.res2 = c11Live[di].Resolve(input) })
 		ch <- o
 	}()
 	var o outcome
@@ -247,6 +271,11 @@ func c11Resolve(tbl c11Table, in rtoks, di int, nontrivial bool) Case {
 		} else if !refCycle && conc(want, d) != o.res {
 			fail = append(fail, "result differs from the recursive-descent reference: want "+conc(want, d))
 		}
+	}
+	cyc1 := strings.HasPrefix(o.panicv, "Circular placeholder reference")
+	cyc2 := strings.HasPrefix(o.panicv2, "Circular placeholder reference")
+	if (o.panicv == "" || cyc1) && (cyc1 != cyc2 || (!cyc1 && (o.panicv2 != "" || o.res2 != o.res))) {
+		fail = append(fail, fmt.Sprintf("a long-lived resolver (same delimiters, lookup function reading the current table) answered %q / panic %q, a fresh one %q / panic %q", o.res2, o.panicv2, o.res, o.panicv))
 	}
 	if indexTok(in, tPRE) < 0 && o.res != input {
 		fail = append(fail, "Resolve(s) != s for s without a prefix")
@@ -332,7 +361,7 @@ func init() {
 	}
 	register(&Prop{
 		ID:   "C11",
-		Rule: "token strings over {prefix, suffix, separator, text chars}: exhaustive in length-lex order (all strings up to length 4 quick / 5 thorough over {PRE,SUF,SEP,a,b}) for two fixed tables (one acyclic with a nested reference, one with a two-key cycle and a key containing the separator), then random templates from the grammar (nesting <= 4, repetition, unknown keys, defaults containing placeholders, unterminated tails, stray suffixes/separators) with random tables over <= 4 keys whose values are templates, single characters or empty; every case under one of 5 non-overlapping delimiter triples (incl. multi-byte, multi-character). Observable: result string (re-tokenised) or 'circular reference' panic; Go-side: independent recursive-descent reference, 30 s divergence timeout. Non-trivial: template nests or repeats a placeholder. Distinct by (triple, table, input).",
+		Rule: "token strings over {prefix, suffix, separator, text chars}: exhaustive in length-lex order (all strings up to length 4 quick / 5 thorough over {PRE,SUF,SEP,a,b}) for two fixed tables (one acyclic with a nested reference, one with a two-key cycle and a key containing the separator), then random templates from the grammar (nesting <= 4, repetition, unknown keys, defaults containing placeholders, unterminated tails, stray suffixes/separators) with random tables over <= 4 keys whose values are templates, single characters or empty; every case under one of 5 non-overlapping delimiter triples (incl. multi-byte, multi-character). Observable: result string (re-tokenised) or 'circular reference' panic; Go-side: independent recursive-descent reference, 30 s divergence timeout. Non-trivial: template nests or repeats a placeholder. Distinct by (triple, table, input). Every second default-triple resolver is built without naming the delimiters; one long-lived resolver per triple (lookup function reading the current table) must answer like the fresh one, also after earlier cycle panics.",
 		Corpus: func() []Case {
 			t := c11Table{keys: []rtoks{a}, vals: []rtoks{{5}}}
 			return []Case{
